@@ -1348,6 +1348,46 @@ SGN0_CACHE_REASONS = {
 }
 
 
+# ---------------------------------------------------------------------------------------------- PAD
+RAW_BUFFER_CONSUMERS = {'memoryview', 'bytes', 'bytearray', 'hash', 'zlib.crc32', 'zlib.adler32', 'binascii.hexlify', 'binascii.crc32',
+                        'int.from_bytes', 'struct.unpack_from', 'struct.unpack', 'hashlib.md5', 'hashlib.sha1', 'hashlib.sha256', 'array.array',
+                        'numpy.frombuffer', 'np.frombuffer', 'io.BytesIO'}
+
+
+def rule_PAD(ctx):
+    """A bitarray whose length is not a multiple of 8 has 1-7 pad bits in its last byte, and their value is unspecified after
+    slicing, deletion, inversion or a shift.  bitarray's own tobytes()/tofile() zero them; the buffer protocol does not.  So
+    the content of a store may be read through the bitarray API only - never through a raw view of the buffer
+    (memoryview(x._bitarray), bytes(x._bitarray), a hash or checksum of the object ...), where two equal bitstrings differ."""
+    m = ctx.m
+    r = RuleResult('PAD', 'store content is never read through a raw view of the bitarray buffer (pad bits are unspecified)')
+    n = 0
+    for f in m.funcs.values():
+        if f.mod == '__main__':
+            continue
+        # locals that hold a store's bitarray
+        holders = {ast.unparse(t) for x in own_walk(f.node) if isinstance(x, ast.Assign) and isinstance(x.value, ast.Attribute) and x.value.attr == '_bitarray'
+                   for t in x.targets if isinstance(t, ast.Name)}
+
+        def is_ba(e):
+            return (isinstance(e, ast.Attribute) and e.attr == '_bitarray') or (isinstance(e, ast.Name) and e.id in holders)
+        for x in own_walk(f.node):
+            if isinstance(x, ast.Attribute) and x.attr == '_bitarray' and isinstance(x.ctx, ast.Load):
+                n += 1
+            if isinstance(x, ast.Call):
+                name = ast.unparse(x.func)
+                if (name in RAW_BUFFER_CONSUMERS or name.split('.')[-1] in ('frombuffer',)) and any(is_ba(a) for a in x.args):
+                    r.fail(f.key, x, f"{name}(...) reads the raw buffer of a store's bitarray: the last byte carries up to 7 pad bits whose value is "
+                           'unspecified after slicing, deletion, inversion and shifts, so equal bitstrings give different bytes (use tobytes(), which '
+                           'zeroes them)', loc=f.loc(x))
+                if isinstance(x.func, ast.Attribute) and x.func.attr in ('buffer_info', '__buffer__', 'tolist_raw') and is_ba(x.func.value):
+                    r.fail(f.key, x, "buffer_info() exposes the address of the raw buffer of a store's bitarray (pad bits included)", loc=f.loc(x))
+    if n < 40:
+        raise AnalysisError(f'only {n} reads of _bitarray found (floor 40)')
+    r.ok('raw views', {'instance': 'package', 'bitarray_reads_examined': n})
+    return r
+
+
 # ---------------------------------------------------------------------------------------------- IDEM
 def rule_IDEM(ctx):
     """`x & x` and `x | x` are x, so a `bs is self` shortcut is right for them; `x ^ x` is all zeros, so the same shortcut in an
